@@ -281,14 +281,16 @@ def rNext (tbl : List (K × CRec)) (r : Reader K) : Except Err (Option (List Nat
     | none => (.error .chunkMissing, r)
     | some c => (.ok (some c.data), { r with cur := r.cur + 1, bytesRead := r.bytesRead + c.data.length })
 
+/-- the chunk `read` can still copy from: `current_data` unless absent or used up (`current_offset >= len`) -/
+def Reader.loaded {K : Type} (r : Reader K) : Option (List Nat) :=
+  match r.data with
+  | none => none
+  | some d => if r.off ≥ d.length then none else some d
+
 /-- `BlobReader::read(buf)` with `buf.len() = n`: the bytes copied into the buffer.  A new chunk is loaded
     when none is loaded or the loaded one is used up; at most the rest of ONE chunk is returned. -/
 def rRead (tbl : List (K × CRec)) (r : Reader K) (n : Nat) : Except Err (List Nat) × Reader K :=
-  let loaded : Option (List Nat) :=
-    match r.data with
-    | none => none
-    | some d => if r.off ≥ d.length then none else some d
-  match loaded with
+  match r.loaded with
   | some d => (.ok ((d.drop r.off).take n), { r with off := r.off + ((d.drop r.off).take n).length })
   | none =>
     match rNext tbl r with
